@@ -295,7 +295,8 @@ def gen_c06(rng, idx, tier, faults):
     heap, ops = {}, []
     kinds = ["uniform", "clusters", "clusters", "lattice", "dups", "offset", "scaled", "gauss"]
     xs = gen_X(rng, kinds, 4, 80 if tier == "thorough" else 48, 2, 6)
-    if rng.random() < 0.06:
+    long_run = rng.random() < 0.1
+    if long_run:
         xs["shape"][0] = rng.randint(70, 140)  # long searches (counters, thresholds on the number of updates)
     if rng.random() < 0.25:
         xs["scale_pow2"] = rng.choice([-30, -24, -20, -12, 10, 20])
@@ -325,7 +326,7 @@ def gen_c06(rng, idx, tier, faults):
         p["score_threshold_type"] = "absolute"
     # schedule of warm-started continuations
     sched = [N]
-    for _ in range(rng.choice([0, 0, 1, 2])):
+    for _ in range(rng.choice([0, 0, 1, 2]) if not long_run else rng.choice([1, 1, 2])):
         if sched[-1] >= cap:
             break
         sched.append(rng.randint(sched[-1] + 1, cap))
@@ -356,7 +357,7 @@ def gen_c06(rng, idx, tier, faults):
         crash = {"where": rng.choice(["start", "before_refit"]) if refit else "start",
                  "exc": rng.choice(["KeyboardInterrupt", "MemoryError"]), "at": rng.randint(1, 400), "warm": rng.random() < 0.3}
     ff_set = None
-    if not calibrated and len(sched) > 1 and rng.random() < 0.25:
+    if not calibrated and len(sched) > 1 and rng.random() < (0.7 if long_run else 0.25):
         # the switching point is re-parameterised between two fits of the chain
         ff_set = (rng.randrange(1, len(sched)), rng.choice([1e-9, 0.05, 0.3, 0.6, 1.0]))
     lane_rng = [_seed(rng) for _ in lanes]
